@@ -170,6 +170,41 @@ package encoding
 //@   ensures result == (d.pos > 0)
 //@ end
 
+//@ # ---- time series block encoder (C14): every slot gets one mask bit; the empty-slot marker of the down-sampling path is
+//@ # exactly +Inf - every other float64 bit pattern (-Inf, NaN payloads, -0, subnormals) is written as a value that the
+//@ # XOR decoder recovers bit for bit -----------------------------------------------------------------------------
+//@ predicate teOK(e *TSDEncoder) bool = e.bitWriter != nil && e.values != nil && e.values.bw == e.bitWriter && xeOK(e.values)
+//@ func TSDEncoder.AppendTime
+//@   prop C14
+//@   opaque tok bitsval sbit
+//@   requires teOK(e)
+//@   modifies e.err, e.count, e.bitWriter.b, e.bitWriter.count, e.bitWriter.w.out, e.bitWriter.w.n
+//@   ensures[one_mask_bit_per_slot] old(e.err) == nil ==> (e.err == nil && bit.sbit(bit.wdata(e.bitWriter), old(bit.wlen(e.bitWriter))) == bool(slot) && bit.wlen(e.bitWriter) == old(bit.wlen(e.bitWriter)) + 1 && e.count == old(e.count) + 1)
+//@   ensures[earlier_bits_kept] old(e.err) == nil ==> all(i, (i >= 0 && i < old(bit.wlen(e.bitWriter))) ==> bit.sbit(bit.wdata(e.bitWriter), i) == old(bit.sbit(bit.wdata(e.bitWriter), i)))
+//@   ensures[a_failed_encoder_writes_nothing] old(e.err) != nil ==> (e.err == old(e.err) && bit.wlen(e.bitWriter) == old(bit.wlen(e.bitWriter)) && e.count == old(e.count))
+//@   ensures[state] e.bitWriter == old(e.bitWriter) && e.values == old(e.values) && e.bitWriter.w == old(e.bitWriter.w) && bit.wSane(e.bitWriter) && e.bitWriter.w.n <= old(e.bitWriter.w.n) + 1
+//@ end
+//@ func TSDEncoder.AppendValue
+//@   prop C14
+//@   opaque tok bitsval sbit
+//@   requires teOK(e)
+//@   modifies e.err, e.values.err, e.values.first, e.values.previousVal, e.values.leading, e.values.trailing, e.bitWriter.b, e.bitWriter.count, e.bitWriter.w.out, e.bitWriter.w.n
+//@   ensures[the_decoder_recovers_the_value] old(e.err) == nil ==> (e.err == nil && xorDecVal(bit.wdata(e.bitWriter), old(bit.wlen(e.bitWriter)), old(e.values.first), old(e.values.previousVal), uint64(old(e.values.leading)), uint64(old(e.values.trailing))) == value && bit.wlen(e.bitWriter) == old(bit.wlen(e.bitWriter)) + xorDecLen(bit.wdata(e.bitWriter), old(bit.wlen(e.bitWriter)), old(e.values.first), uint64(old(e.values.leading)), uint64(old(e.values.trailing))))
+//@   ensures[earlier_bits_kept] old(e.err) == nil ==> all(i, (i >= 0 && i < old(bit.wlen(e.bitWriter))) ==> bit.sbit(bit.wdata(e.bitWriter), i) == old(bit.sbit(bit.wdata(e.bitWriter), i)))
+//@   ensures[a_failed_encoder_writes_nothing] old(e.err) != nil ==> (e.err == old(e.err) && bit.wlen(e.bitWriter) == old(bit.wlen(e.bitWriter)))
+//@ end
+//@ func TSDEncoder.EmitDownSamplingValue
+//@   prop C14
+//@   opaque tok bitsval sbit
+//@   requires teOK(e) && e.bitWriter.w.n < 72057594037926000
+//@   modifies e.err, e.count, e.values.err, e.values.first, e.values.previousVal, e.values.leading, e.values.trailing, e.bitWriter.b, e.bitWriter.count, e.bitWriter.w.out, e.bitWriter.w.n
+//@   ensures[only_positive_infinity_marks_an_empty_slot] (old(e.err) == nil && math.f64bits(value) == 9218868437227405312) ==> (e.err == nil && !bit.sbit(bit.wdata(e.bitWriter), old(bit.wlen(e.bitWriter))) && bit.wlen(e.bitWriter) == old(bit.wlen(e.bitWriter)) + 1)
+//@   ensures[every_other_bit_pattern_is_stored_and_recovered_exactly] (old(e.err) == nil && math.f64bits(value) != 9218868437227405312) ==> (e.err == nil && bit.sbit(bit.wdata(e.bitWriter), old(bit.wlen(e.bitWriter))) && xorDecVal(bit.wdata(e.bitWriter), old(bit.wlen(e.bitWriter)) + 1, old(e.values.first), old(e.values.previousVal), uint64(old(e.values.leading)), uint64(old(e.values.trailing))) == math.f64bits(value))
+//@   ensures[one_slot_per_call] old(e.err) == nil ==> e.count == old(e.count) + 1
+//@ end
+//@ # not under contract: TSDEncoder.Reset / RestWithStartTime (the bit writer is re-pointed at a buffer that is a field of the
+//@ # encoder itself - a pointer to a sub-object stored in an interface field, outside the memory model)
+
 //@ # ---- time series block decoder: reuse through the pool starts from a clean state --------------------
 //@ func TSDDecoder.reset
 //@   prop C14
